@@ -146,8 +146,22 @@ def run(R):
         R.fail('C09.SIB.2', inst, CM + '.to_canonical_uri', 'def decode', 'the two URI writers escape bytes differently', tc_.f.loc())
     for cx in (ts_, tc_):
         inst = f'{cx.qual} :: malformed component refused, typed prefix'
-        chk = [t for t in cx.cfg.nodes if t.kind == 'test' and ast.unparse(t.ast) in ('len(component) != length + offset', 'len(component) != offset + length')]
-        gen = [t for t in cx.cfg.nodes if t.kind == 'test' and ast.unparse(t.ast) == 'typ != TYPE_GENERIC']
+        par = cx.f.node.args.args[0].arg
+
+        def is_len_check(t):
+            a = t.ast
+            if not (isinstance(a, ast.Compare) and len(a.ops) == 1 and isinstance(a.ops[0], ast.NotEq)):
+                return False
+            try:
+                d = lin(ast.BinOp(left=a.left, op=ast.Sub(), right=a.comparators[0]))
+            except NotLinear:
+                return False
+            k = d.get(f'len({par})', 0)
+            rest = {t_: c for t_, c in d.items() if t_ != f'len({par})'}
+            return k in (1, -1) and len(rest) == 2 and all(c == -k for c in rest.values()) and 1 not in rest
+        chk = [t for t in cx.cfg.nodes if t.kind == 'test' and is_len_check(t)]
+        gen = [t for t in cx.cfg.nodes if t.kind == 'test' and isinstance(t.ast, ast.Compare) and len(t.ast.ops) == 1 and isinstance(t.ast.ops[0], ast.NotEq)
+               and 'TYPE_GENERIC' in {ast.unparse(t.ast.left).rsplit('.', 1)[-1], ast.unparse(t.ast.comparators[0]).rsplit('.', 1)[-1]}]
         if chk and gen:
             R.ok('C09.SIB.2', inst, site(cx, chk[0].ast))
         else:
